@@ -2,6 +2,7 @@ package exec
 
 import (
 	"fmt"
+	"os"
 	"go/types"
 	"sort"
 	"strings"
@@ -128,7 +129,7 @@ func builtinIntrinsics() map[string]Intrinsic {
 		if len(b.B) < len(p.B) {
 			return one(smt.False)
 		}
-		return one(x.strEq(Str{b.B[:len(p.B)]}, p))
+		return one(x.strEq(Str{B: b.B[:len(p.B)]}, p))
 	}
 	m["bytes.EqualFold"] = func(x *Exec, s *State, a []Value, _ *ssa.Call) []Outcome {
 		return one(x.equalFoldASCII(s.bytesOf(a[0].(Slice)), s.bytesOf(a[1].(Slice))))
@@ -270,7 +271,7 @@ func (x *Exec) indexAny(s Str, chars Str) []Outcome {
 }
 
 func (x *Exec) subAt(s, sub Str, k int) *smt.Term {
-	return x.strEq(Str{s.B[k : k+len(sub.B)]}, sub)
+	return x.strEq(Str{B: s.B[k : k+len(sub.B)]}, sub)
 }
 
 func (x *Exec) indexSub(s, sub Str) []Outcome {
@@ -402,8 +403,87 @@ func (x *Exec) mapRune(r *smt.Term, upper bool) *smt.Term {
 	return res
 }
 
+// caseWidths[upper][w] is the set of encoded widths that the case mapping of a rune of
+// encoded width w can have (computed from the engine's own unicode tables).
+var caseWidths [2][5]map[int]bool
+
+func init() {
+	for u := 0; u < 2; u++ {
+		for w := 1; w <= 4; w++ {
+			caseWidths[u][w] = map[int]bool{}
+		}
+		for r := rune(0); r <= unicode.MaxRune; r++ {
+			if r >= 0xD800 && r <= 0xDFFF {
+				continue
+			}
+			m := unicode.ToLower(r)
+			if u == 1 {
+				m = unicode.ToUpper(r)
+			}
+			caseWidths[u][runeLen(r)][runeLen(m)] = true
+		}
+		caseWidths[u][1][3] = true // an invalid byte becomes U+FFFD
+	}
+}
+
+func runeLen(r rune) int {
+	switch {
+	case r < 0x80:
+		return 1
+	case r < 0x800:
+		return 2
+	case r < 0x10000:
+		return 3
+	}
+	return 4
+}
+
+// mapRuneW is mapRune for a rune known to have encoded width w (smaller formula).
+func (x *Exec) mapRuneW(r *smt.Term, upper bool, w int) *smt.Term {
+	c := x.Ctx
+	if r.IsConst() {
+		return x.mapRune(r, upper)
+	}
+	lo, hi := rune(0), rune(0x7F)
+	switch w {
+	case 2:
+		lo, hi = 0x80, 0x7FF
+	case 3:
+		lo, hi = 0x800, 0xFFFF
+	case 4:
+		lo, hi = 0x10000, unicode.MaxRune
+	}
+	tab := lowerTab
+	if upper {
+		tab = upperTab
+	}
+	k := func(v rune) *smt.Term { return smt.Const(32, uint64(uint32(v))) }
+	res := r
+	for i := len(tab) - 1; i >= 0; i-- {
+		cr := tab[i]
+		if cr.hi < lo || cr.lo > hi {
+			continue
+		}
+		in := c.And(c.Uge(r, k(cr.lo)), c.Ule(r, k(cr.hi)))
+		var mapped *smt.Term
+		if cr.alt {
+			off := c.Sub(r, k(cr.lo))
+			if upper {
+				mapped = c.Add(k(cr.lo), c.Bin(smt.OpBvAnd, off, smt.Const(32, 0xFFFFFFFE)))
+			} else {
+				mapped = c.Add(k(cr.lo), c.Bin(smt.OpBvOr, off, smt.Const(32, 1)))
+			}
+		} else {
+			mapped = c.Add(r, k(cr.delta))
+		}
+		res = c.Ite(in, mapped, res)
+	}
+	return res
+}
+
 // caseMap is strings.ToLower / ToUpper / bytes.ToUpper: decode, map every rune,
-// encode. Invalid bytes become U+FFFD (as strings.Map does).
+// encode. Invalid bytes become U+FFFD (as strings.Map does). The result carries its
+// rune structure so that a regular expression applied to it need not re-decode.
 func (x *Exec) caseMap(st *State, s Str, upper bool) []Outcome {
 	c := x.Ctx
 	if cs, ok := s.Concrete(); ok {
@@ -423,36 +503,79 @@ func (x *Exec) caseMap(st *State, s Str, upper bool) []Outcome {
 		for i, b := range s.B {
 			out[i] = mapASCII(b)
 		}
-		return one(Str{out})
+		return one(Str{B: out})
 	}
-	// general: fork on the decoding, then on the widths of the mapped runes
+	ui := 0
+	if upper {
+		ui = 1
+	}
+	type partial struct {
+		cond  *smt.Term
+		b     []*smt.Term
+		off   []int
+		runes []*smt.Term
+	}
 	var outs []Outcome
-	dec := x.decodeAll(st, s, func(_ *State, runes []*smt.Term) Value {
-		el := make(Tuple, len(runes))
-		for i, r := range runes {
-			el[i] = r
+	var rec func(pos int, p partial)
+	rec = func(pos int, p partial) {
+		if pos == len(s.B) {
+			meta := &RuneMeta{Off: append(append([]int(nil), p.off...), len(p.b)), Runes: append([]*smt.Term(nil), p.runes...)}
+			outs = append(outs, Outcome{Cond: p.cond, Val: Str{B: append([]*smt.Term(nil), p.b...), R: meta}})
+			return
 		}
-		return el
-	})
-	for _, d := range dec {
-		runes := d.Val.(lazyVal).mk(st).(Tuple)
-		mapped := make([]Value, len(runes))
-		for i, r := range runes {
-			mapped[i] = x.mapRune(r.(*smt.Term), upper)
-		}
-		sub := st
-		if d.Cond != smt.True {
-			// encode under the decoding condition so that infeasible widths are pruned
-			sub = &State{W: st.W, PC: append(append([]*smt.Term(nil), st.PC...), d.Cond)}
-			if ok, m := x.feasible(st, d.Cond); ok {
-				sub.Model = m
+		for _, d := range x.decodeAt(st, s, pos) {
+			dc := c.And(p.cond, d.Cond)
+			if dc == smt.False {
+				continue
+			}
+			if ok, _ := x.feasible(st, dc); !ok {
+				continue
+			}
+			var m *smt.Term
+			if d.Width == 1 {
+				b := s.B[pos]
+				m = c.Ite(c.Ult(b, smt.Byte(0x80)), c.Zext(mapASCII(b), 32), smt.Const(32, 0xFFFD))
+			} else {
+				m = x.mapRuneW(d.Rune, upper, d.Width)
+			}
+			encs := x.encodeRune(m)
+			e3, eb := encs[2], encs[4]
+			m3 := make([]*smt.Term, 3)
+			for i := range m3 {
+				m3[i] = c.Ite(eb.Cond, eb.Bytes[i], e3.Bytes[i])
+			}
+			forms := [][2]interface{}{{encs[0].Cond, encs[0].Bytes}, {encs[1].Cond, encs[1].Bytes}, {c.Or(e3.Cond, eb.Cond), m3}, {encs[3].Cond, encs[3].Bytes}}
+			nWidths := 0
+			for wi := range forms {
+				ow := wi + 1
+				if !caseWidths[ui][d.Width][ow] {
+					continue
+				}
+				nWidths++
+			}
+			for wi, f := range forms {
+				ow := wi + 1
+				if !caseWidths[ui][d.Width][ow] {
+					continue
+				}
+				nc := c.And(dc, f[0].(*smt.Term))
+				if nc == smt.False {
+					continue
+				}
+				if nWidths > 1 {
+					if ok, _ := x.feasible(st, nc); !ok {
+						continue
+					}
+				}
+				np := partial{cond: nc}
+				np.b = append(append([]*smt.Term(nil), p.b...), f[1].([]*smt.Term)...)
+				np.off = append(append([]int(nil), p.off...), len(p.b))
+				np.runes = append(append([]*smt.Term(nil), p.runes...), m)
+				rec(pos+d.Width, np)
 			}
 		}
-		for _, e := range x.encodeRunes(sub, mapped) {
-			outs = append(outs, Outcome{Cond: c.And(d.Cond, e.Cond), Val: e.Val})
-		}
 	}
-	// an all-ASCII input is returned with the bytewise mapping; it is one of the shapes above
+	rec(0, partial{cond: smt.True})
 	return outs
 }
 
@@ -519,7 +642,7 @@ func (x *Exec) htmlEscape(st *State, s Str) []Outcome {
 	}
 	outs := make([]Outcome, len(cur))
 	for i, p := range cur {
-		outs[i] = Outcome{Cond: p.cond, Val: Str{p.b}}
+		outs[i] = Outcome{Cond: p.cond, Val: Str{B: p.b}}
 	}
 	return outs
 }
@@ -554,6 +677,9 @@ func inRegexpFindStringSubmatch(x *Exec, s *State, a []Value, _ *ssa.Call) []Out
 	rx := rxOf(a[0])
 	str := a[1].(Str)
 	var outs []Outcome
+	if os.Getenv("SYMGO_DEBUG") != "" {
+		fmt.Println("FindStringSubmatch len", len(str.B), "meta", str.R != nil, "results", len(x.rxFind(s, rx, str, 0)))
+	}
 	for _, r := range x.rxFind(s, rx, str, 0) {
 		if r.Caps == nil {
 			outs = append(outs, Outcome{Cond: r.Cond, Val: Slice{}})
@@ -565,7 +691,7 @@ func inRegexpFindStringSubmatch(x *Exec, s *State, a []Value, _ *ssa.Call) []Out
 			if lo < 0 || hi < 0 {
 				el[i] = Str{}
 			} else {
-				el[i] = Str{str.B[lo:hi]}
+				el[i] = Str{B: str.B[lo:hi]}
 			}
 		}
 		outs = append(outs, Outcome{Cond: r.Cond, Val: lazyVal{func(cs *State) Value { return cs.newSlice(el) }}})
@@ -619,11 +745,11 @@ func inRegexpReplaceAllString(x *Exec, s *State, a []Value, _ *ssa.Call) []Outco
 		var out Str
 		prev := 0
 		for _, sp := range spans[i] {
-			out = concatStr(out, Str{str.B[prev:sp[0]]})
+			out = concatStr(out, Str{B: str.B[prev:sp[0]]})
 			out = concatStr(out, StrOf(repl))
 			prev = sp[1]
 		}
-		out = concatStr(out, Str{str.B[prev:]})
+		out = concatStr(out, Str{B: str.B[prev:]})
 		outs = append(outs, Outcome{Cond: conds[i], Val: out})
 	}
 	return outs
@@ -663,7 +789,7 @@ func resumeReplaceFunc(x *Exec, s *State, f *Frame) {
 	}
 	if f.NatStep == len(d.spans) {
 		prev := d.spans[len(d.spans)-1][1]
-		acc = concatStr(acc, Str{d.str.B[prev:]})
+		acc = concatStr(acc, Str{B: d.str.B[prev:]})
 		x.popFrame(s, acc)
 		return
 	}
@@ -672,9 +798,9 @@ func resumeReplaceFunc(x *Exec, s *State, f *Frame) {
 		prev = d.spans[f.NatStep-1][1]
 	}
 	sp := d.spans[f.NatStep]
-	acc = concatStr(acc, Str{d.str.B[prev:sp[0]]})
+	acc = concatStr(acc, Str{B: d.str.B[prev:sp[0]]})
 	f.NatAcc = acc
-	x.callValue(s, d.fn, []Value{Str{d.str.B[sp[0]:sp[1]]}})
+	x.callValue(s, d.fn, []Value{Str{B: d.str.B[sp[0]:sp[1]]}})
 }
 
 // ---------- fmt ----------
@@ -898,7 +1024,7 @@ func bufMethods(m map[string]Intrinsic) {
 		return one(Tuple{intConst(len(str.B)), Iface{}})
 	}
 	m["(*bytes.Buffer).WriteByte"] = func(x *Exec, s *State, a []Value, _ *ssa.Call) []Outcome {
-		bufAppend(s, a[0].(Ptr), Str{[]*smt.Term{a[1].(*smt.Term)}})
+		bufAppend(s, a[0].(Ptr), Str{B: []*smt.Term{a[1].(*smt.Term)}})
 		return one(Iface{})
 	}
 	m["(*bytes.Buffer).WriteRune"] = func(x *Exec, s *State, a []Value, _ *ssa.Call) []Outcome {
@@ -916,11 +1042,11 @@ func bufMethods(m map[string]Intrinsic) {
 			return one(StrOf("<nil>"))
 		}
 		content, off := bufLoad(s, p)
-		return one(Str{content.B[off:]})
+		return one(Str{B: content.B[off:]})
 	}
 	m["(*bytes.Buffer).Bytes"] = func(x *Exec, s *State, a []Value, _ *ssa.Call) []Outcome {
 		content, off := bufLoad(s, a[0].(Ptr))
-		rest := Str{content.B[off:]}
+		rest := Str{B: content.B[off:]}
 		return []Outcome{{Cond: smt.True, Val: lazyVal{func(cs *State) Value { return cs.newByteSlice(rest) }}}}
 	}
 	m["(*bytes.Buffer).Len"] = func(x *Exec, s *State, a []Value, _ *ssa.Call) []Outcome {
@@ -947,7 +1073,7 @@ func bufMethods(m map[string]Intrinsic) {
 		if n < 0 {
 			return panicOutcome("slice bounds out of range in bytes.Buffer.Next")
 		}
-		data := Str{content.B[off : off+n]}
+		data := Str{B: content.B[off : off+n]}
 		return []Outcome{{Cond: smt.True, Val: lazyVal{func(cs *State) Value {
 			bufStore(cs, p, content, off+n)
 			return cs.newByteSlice(data)
